@@ -12,5 +12,6 @@ import DnsVerif.Props.C08
 #print axioms DnsVerif.Props.C08.applyDiff_absent_record_fails
 #print axioms DnsVerif.Props.C08.applyDiff_order_irrelevant
 #print axioms DnsVerif.Props.C08.applyDiff_order_irrelevant_error
-#print axioms DnsVerif.Props.C08.applyDiff_eq_compile_rawLines_false
-#print axioms DnsVerif.Props.C08.applyDiff_eq_compile_rawLines_partial
+#print axioms DnsVerif.Props.C08.applyDiff_eq_compile_rawLines
+#print axioms DnsVerif.Props.C08.diff_wellformed_rawLines
+#print axioms DnsVerif.Props.C08.applyDiff_eq_compile_rawLines_of_files
